@@ -159,6 +159,7 @@ for _unit in ("second", "minute", "hour", "day", "week", "month", "year"):
                       ("latest_not_after", "us(result) <= us(date) < us(result) + %s(date)" % ln)]
         ceil_post = [("boundary", _boundary("result", _unit)),
                      ("earliest_not_before", "us(result) >= us(date)"),
+                     ("less_than_one_period_later", "us(result) - us(date) < %s(date)" % ln),
                      ("no_earlier_boundary", "implies(%s, result == date) and implies(not %s, us(result) == %s(date) + %s(date))"
                       % (_boundary("date", _unit), _boundary("date", _unit), st, ln))]
         round_post = [("boundary", _boundary("result", _unit)),
@@ -452,3 +453,24 @@ RANGE_SUMMARY = {"d3_time.d3_time_interval.range": {
                 "forall(lambda k: implies(1 <= k < len(result), us(result[k - 1]) < us(result[k])))",
                 "implies(dt > 1, forall(lambda k: implies(0 <= k < len(result), unit_number(self, result[k]) % dt == 0)))",
                 "fresh(result)"]}}
+
+
+def unit_len_at(E, P, ctx, obj, t):
+    """length of the unit's period that contains t (constant for the fixed-length units)"""
+    u = unit_of(E, P, obj)
+    if u in FIXED:
+        return [(P, Num(z3.IntVal(FIXED[u][0]), True))]
+    return (month_len if u == "month" else year_len)(E, P, ctx, t)
+
+
+SPECFUNS["unit_len_at"] = unit_len_at
+
+# floor / ceil of an interval object, stated once over `self` (clauses proved per unit by floor@<unit> / ceil@<unit>)
+FLOOR_CEIL_SUMMARY = {
+    "d3_time.d3_time_interval.floor": {
+        "requires": [("in_range", "in_range_years(date)")], "modifies": [], "returns": "dt",
+        "ensures": ["unit_boundary(self, result)", "us(result) <= us(date)", "us(date) - us(result) < unit_len_at(self, date)"]},
+    "d3_time.d3_time_interval.ceil": {
+        "requires": [("in_range", "in_range_years(date)")], "modifies": [], "returns": "dt",
+        "ensures": ["unit_boundary(self, result)", "us(result) >= us(date)", "us(result) - us(date) < unit_len_at(self, date)"]},
+}
